@@ -213,6 +213,22 @@ def _conservation(chk, repo, folder):
         a = c.args[0]
         ok = isinstance(a, ast.Subscript) and src(a.value) == f.params[2] and isinstance(a.slice, ast.Slice) and src(a.slice.lower) == "1" \
             and ff.is_form(a.slice.upper, "8 - ((command >> 1) & 0x7)", subst=True)
+        if not ok and isinstance(a, ast.Subscript) and src(a.value) == f.params[2] and isinstance(a.slice, ast.Slice) and a.slice.step is None:
+            # decided by value: both bounds, with single-definition locals put in, folded for all command bytes
+            def _resolved(e_):
+                e2 = e_
+                for _ in range(4):
+                    names_ = [x for x in ast.walk(e2) if isinstance(x, ast.Name) and x.id not in ("command",) and ff.one_def(x.id) is not None]
+                    if not names_:
+                        break
+                    from .common import substitute as _subst
+                    e2 = _subst(e2, {x.id: ff.one_def(x.id) for x in names_})
+                return e2
+            try:
+                lo_e, hi_e = _resolved(a.slice.lower) if a.slice.lower is not None else ast.Constant(value=0), _resolved(a.slice.upper)
+                ok = all(folder.fold(lo_e, Scope(f.mod, None, {"command": cb})) == 1 and folder.fold(hi_e, Scope(f.mod, None, {"command": cb})) == 8 - ((cb >> 1) & 7) for cb in range(256))
+            except Exception:  # noqa
+                ok = False
         chk.check(ok, "R4", f"{SV}:SdoServer.segmented_download | appended bytes", f.loc(c), f"appends {src(a)}; CiA 301: request[1:8 - n] with n = bits 3..1")
     sd = find_calls(f.node, "self._node.set_data")
     chk.check(len(sd) == 1, "R4", f"{SV}:SdoServer.segmented_download | completed download is committed", f.loc(), f"{len(sd)} set_data calls: the transferred bytes are never stored")
